@@ -11,7 +11,7 @@
 // Oracles (conformal): points_C == linear(g(points_A)) with g the truncated, normalised arcsin series; evaluate_C(points_C[i]) == evaluate_A(points_A[i])
 // (== v_i for interpolatory rules); evaluate_C(x) == evaluate_A(g^-1(x)) with a bisection inverse; weights_C == weights_A * prod g'(t_ij) (* linear factor).
 #include "history.hpp"
-#include "maps.hpp"
+#include "refmodel/maps.hpp"
 
 namespace vf {
 namespace {
